@@ -610,12 +610,16 @@ _zuc_eia3_16_buffer_avx512(const void *const pKey[NUM_AVX512_BUFS],
         uint32_t T[NUM_AVX512_BUFS] = { 0 };
         const uint32_t keyStreamLengthInBits = ZUC_KEYSTR_LEN * 8;
         DECLARE_ALIGNED(uint16_t lens[NUM_AVX512_BUFS], 32);
+        /* set when all buffers have the same length */
+        unsigned int allCommonBits = 1;
 
         for (i = 0; i < NUM_AVX512_BUFS; i++) {
                 pIn8[i] = (const uint8_t *) pBufferIn[i];
                 keys.pKeys[i] = pKey[i];
                 memcpy(ivs + i * 32, pIv[i], 16);
                 lens[i] = (uint16_t) lengthInBits[i];
+                if (lengthInBits[i] != commonBits)
+                        allCommonBits = 0;
         }
 
         init_16(&keys, ivs, &state, 0xFFFF, use_gfni);
@@ -627,7 +631,7 @@ _zuc_eia3_16_buffer_avx512(const void *const pKey[NUM_AVX512_BUFS],
                 remainCommonBits -= keyStreamLengthInBits;
                 numKeyStr++;
                 /* Generate the next key stream 8 bytes or 64 bytes */
-                if (!remainCommonBits)
+                if (!remainCommonBits && allCommonBits)
                         keystr_8B_gen_16(&state, keyStr, 64, use_gfni);
                 else
                         keystr_64B_gen_16(&state, keyStr, 64, use_gfni);
